@@ -7,14 +7,22 @@ M = [
  # name, file, old, new
  ("c01_unwrap_key", X+'unicode.rs', "let key = TinyStr4::from_bytes(key).map_err(|_| ParserError::InvalidSubtag)?;\n    Ok(key.to_ascii_lowercase())\n}\n\nconst TRUE_TYPE", "let key = TinyStr4::from_bytes(key).unwrap();\n    Ok(key.to_ascii_lowercase())\n}\n\nconst TRUE_TYPE"),
  ("c01_unwrap_private", X+'private.rs', "let s = TinyStr8::from_bytes(t).map_err(|_| ParserError::InvalidSubtag)?;", "let s = TinyStr8::from_bytes(t).unwrap();"),
- ("c02_lang_len9", L+'subtags/language.rs', None, None),
+ ("c02_lang_len4", L+'subtags/language.rs', "if !(2..=8).contains(&slen) || slen == 4 || !s.is_ascii_alphabetic() {", "if !(2..=8).contains(&slen) || !s.is_ascii_alphabetic() {"),
+ ("c02_script_after_region", L+'parser/mod.rs', None, None),
  ("c02_no_dedup", L+'parser/mod.rs', "        variants.dedup();\n", ""),
  ("c03_repeat_u", X+'mod.rs', "                    if seen_unicode {\n                        return Err(ParserError::InvalidExtension);\n                    }\n", ""),
  ("c03_multichar_singleton", X+'mod.rs', "            if subtag.len() > 1 {\n                // A singleton is exactly one character long.\n                return Err(ParserError::InvalidExtension);\n            }\n", ""),
  ("c04_u_before_t", X+'mod.rs', 'write!(f, "{}{}{}", self.transform, self.unicode, self.private)?;', 'write!(f, "{}{}{}", self.unicode, self.transform, self.private)?;'),
  ("c04_set_variants_nosort", L+'lib.rs', "            v.sort_unstable();\n            v.dedup();\n            self.variants = Some(v.into_boxed_slice());", "            v.dedup();\n            self.variants = Some(v.into_boxed_slice());"),
  ("c05_tfield_eats_singleton", X+'transform.rs', "            } else if slen == 1 {\n                // The next singleton ends the transform extension.\n                break;\n", ""),
- ("c07_or_else_swapped", L+'likelysubtags/mod.rs', None, None),
+ ("c07_or_else_swapped", L+'likelysubtags/mod.rs', "    let region = region.or_else(|| input.2.map(|r| subtags::Region::from_raw_unchecked(r)));", "    let region = input.2.map(|r| subtags::Region::from_raw_unchecked(r)).or(region);"),
+ ("c06_script_before_region", L+'likelysubtags/mod.rs', None, None),
+ ("c06_early_return_or", L+'likelysubtags/mod.rs', "    if !lang.is_empty() && script.is_some() && region.is_some() {\n        return None;\n    }\n\n    if let Some(l)", "    if !lang.is_empty() && (script.is_some() || region.is_some()) && script.is_some() == region.is_some() && lang.as_str().len() == 3 && region.map_or(false, |r| r.as_str().len() == 3) {\n        return None;\n    }\n    if !lang.is_empty() && script.is_some() && region.is_some() {\n        return None;\n    }\n\n    if let Some(l)"),
+ ("c08_no_equality_test", L+'likelysubtags/mod.rs', "    if max_langid.2.is_some() {\n        if let Some(trial) = maximize(max_langid.0, None, max_langid.2) {\n            if trial == max_langid {", "    if max_langid.2.is_some() {\n        if let Some(trial) = maximize(max_langid.0, None, max_langid.2) {\n            if trial.0 == max_langid.0 && trial.2 == max_langid.2 {"),
+ ("c08_script_trial_first", L+'likelysubtags/mod.rs', None, None),
+ ("c14_rtl_before_script", L+'lib.rs', None, None),
+ ("c14_move_script", L+'layout_table.rs', "    [1650553409, 1734897490, 1835820097, 1869572942];", "    [1650553409, 1734897490, 1835820097, 1869572942, 1819441475];"),
+ ("c18_swap_rows", L+'likelysubtags/tables.rs', None, None),
  ("c09_attr_no_lowercase", X+'unicode.rs', "    Ok(s.to_ascii_lowercase())\n}\n\nfn is_type", "    Ok(s)\n}\n\nfn is_type"),
  ("c09_attr_no_sort", X+'unicode.rs', "        uext.attributes.sort_unstable();\n", ""),
  ("c10_set_attr_push", X+'unicode.rs', "        if let Err(idx) = self.attributes.binary_search(&attribute) {\n            self.attributes.insert(idx, attribute);\n        }", "        if !self.attributes.contains(&attribute) {\n            self.attributes.push(attribute);\n        }"),
@@ -24,10 +32,10 @@ M = [
  ("c11_locale_ignores_private", LO+'lib.rs', "        if !self.extensions.private.is_empty() || !other.extensions.private.is_empty() {\n            return false;\n        }\n", ""),
  ("c12_empty_variants_some", L+'lib.rs', "        if v.is_empty() {\n            self.variants = None;\n        } else {", "        if false {\n            self.variants = None;\n        } else {"),
  ("c12_eq_str_case_insensitive", L+'lib.rs', "        self.to_string().as_str() == *other", "        self.to_string().eq_ignore_ascii_case(other)"),
- ("c13_locale_split_dash_only", LO+'parser/mod.rs', None, None),
- ("c15_region_3_letters", L+'subtags/region.rs', None, None),
+ ("c13_locale_split_dash_only", LO+'parser/mod.rs', "    let mut iter = t.as_ref().split(|c| *c == b'-' || *c == b'_').peekable();", "    let mut iter = t.as_ref().split(|c| *c == b'-').peekable();"),
+ ("c15_region_3_alnum", L+'subtags/region.rs', "                if !s.is_ascii_numeric() {", "                if !s.is_ascii_alphanumeric() || s.is_ascii_alphabetic() {"),
  ("c17_into_parts_swap", LO+'lib.rs', "        (lang, region, script, variants, self.extensions.to_string())", "        (lang, region, None, variants, self.extensions.to_string())"),
- ("c17_script_be", L+'subtags/script.rs', None, None),
+ ("c17_script_into_be", L+'subtags/script.rs', "impl From<Script> for u32 {\n    fn from(input: Script) -> Self {\n        u32::from_le_bytes(*input.0.all_bytes())", "impl From<Script> for u32 {\n    fn from(input: Script) -> Self {\n        u32::from_be_bytes(*input.0.all_bytes())"),
  ("c16_lang_und_none", 'unic-langid-macros-impl/src/lib.rs', "        quote!($crate::subtags::Language::default())\n    };\n\n    TokenStream::from(quote! {\n        #lang\n    })", "        quote!(None)\n    };\n\n    TokenStream::from(quote! {\n        #lang\n    })"),
  ("c16_langid_variants_unsorted", 'unic-langid-macros-impl/src/lib.rs', "    let (lang, script, region, variants) = parsed.into_parts();\n\n    let lang: Option<u64> = lang.into();\n    let lang = if let Some(lang) = lang {\n        quote!(unsafe { $crate::subtags::Language::from_raw_unchecked(#lang) })\n    } else {\n        quote!($crate::subtags::Language::default())\n    };\n\n    let script", "    let (lang, script, region, mut variants) = parsed.into_parts();\n    variants.reverse();\n\n    let lang: Option<u64> = lang.into();\n    let lang = if let Some(lang) = lang {\n        quote!(unsafe { $crate::subtags::Language::from_raw_unchecked(#lang) })\n    } else {\n        quote!($crate::subtags::Language::default())\n    };\n\n    let script"),
  ("c20_serde_changes_display", L+'lib.rs', "        if let Some(ref region) = self.region {\n            f.write_char('-')?;", "        if let Some(ref region) = self.region {\n            #[cfg(feature = \"serde\")]\n            f.write_char('_')?;\n            #[cfg(not(feature = \"serde\"))]\n            f.write_char('-')?;"),
